@@ -96,6 +96,7 @@ package include
 //@   ensures [files_grow] forall p string :: old(has(result.Files, p)) ==> has(result.Files, p) && result.Files[p] == old(result.Files[p])
 //@   ensures [C11:contents_current] forall p string :: {has(result.Files, p)} has(result.Files, p) && !old(has(result.Files, p)) ==> result.Files[p] != nil && parsedFrom(result.Files[p]) == fsread(p)
 //@   ensures [C11:hit_resolves_nested] !old(has(visited, includePath)) ==> has(visited, includePath) || len(result0) > 0
+//@   ensures [C10,C11:too_deep_on_directive] !old(has(visited, includePath)) && old(mtrue(visited)) >= l.limits.MaxIncludeDepth ==> (forall i int :: {result0[i]} 0 <= i && i < len(result0) ==> result0[i].Range == incRange)
 //@   ensures [C10,C11:too_deep_not_loaded] !old(has(visited, includePath)) && old(mtrue(visited)) >= l.limits.MaxIncludeDepth ==> len(result0) >= 1 && (forall p string :: has(result.Files, p) <==> old(has(result.Files, p)))
 //@   ensures [C10:oversized_on_directive] !old(has(visited, includePath)) && !old(has(l.cache, includePath)) && len(fsread(includePath)) > l.limits.MaxFileSizeBytes ==> len(result0) == 1 && result0[0].Range == incRange && (forall p string :: has(result.Files, p) <==> old(has(result.Files, p)))
 //@   ensures [C11:entered_registered] !old(has(visited, includePath)) && has(visited, includePath) ==> has(result.Files, includePath)
